@@ -9,6 +9,11 @@ Line-protocol driver for C02: runs the hand-written model of Voter/VoteDB on the
   M kind round index hash prio sender addrOk w status vt T q qOld stakeErr sortErr nilVote   received vote -> <outcome>|<events>|<state>
   R                                                             crash + restart                          -> <outcome>|<events>|<state>
   K n after                                                     arm a crash at the n-th Put of the next call -> ok
+  EB b                                                          BLS reported enabled while contexts are delivered -> ok
+  XL round index step cert                                      ContextChangeEvent through Voter.Start/eventLoop/Stop -> as X
+  U hash                                                        Voter.removeMarkedBlock                  -> <outcome>|<events>|<state>
+  Q round index chamberTh houseTh                               Voter.existHashOverVotesThreshold        -> q=0 | q=1
+  F kind idx round index mode                                   foreign record in an empty slot          -> ok
   outcome: nil | invalid | panic | crashed
 -/
 import YouVerif.C02.Model
@@ -111,6 +116,10 @@ def stepLine (s : St) (line : String) : St × String :=
     match rest.mapM nat? with
     | some [r, i, st, cert] => respond (step s (.ctx r i st (cert = 1)))
     | _ => (s, "bad-op")
+  | "XL" :: rest =>   -- the same context delivered through Start/eventLoop/Stop; an armed crash point is disarmed first
+    match rest.mapM nat? with
+    | some [r, i, st, cert] => respond (step (step s (.arm 0 false)).1 (.ctx r i st (cert = 1)))
+    | _ => (s, "bad-op")
   | "M" :: rest =>
     match rest.mapM nat? with
     | some [k, r, i, h, p, sender, addrOk, w, status, vt, _T, q, qOld, stakeErr, sortErr, nilVote] =>
@@ -118,6 +127,19 @@ def stepLine (s : St) (line : String) : St × String :=
                                w := w, status := status, vt := vt, q := q, qOld := qOld, stakeErr := stakeErr = 1,
                                sortErr := sortErr = 1, nilVote := nilVote = 1 }))
     | _ => (s, "bad-op")
+  | "EB" :: rest =>
+    match rest.mapM nat? with
+    | some [e] => ({ s with env := { s.env with bls := e = 1 } }, "ok")
+    | _ => (s, "bad-op")
+  | "U" :: rest =>
+    match rest.mapM nat? with
+    | some [h] => respond (step s (.unmark h))
+    | _ => (s, "bad-op")
+  | "Q" :: rest =>
+    match rest.mapM nat? with
+    | some [r, i, c, h] => (s, if existOver s r i c h then "q=1" else "q=0")
+    | _ => (s, "bad-op")
+  | "F" :: _ => (s, "ok")   -- a foreign record written into an EMPTY slot: invisible to NewVoteDB, hence to the model
   | ["R"] => respond (step s .crash)
   | "K" :: rest =>
     match rest.mapM nat? with
